@@ -89,15 +89,15 @@ theorem root_copy {os : Origins} {n p : Nat} {x : Origin} (hfresh : olookup os n
   rw [olookup_append, hfresh, Option.none_or, olookup_single]
   exact rootFuel_append _ hp
 
-theorem readOrigin_ne_copy (d : Db) (k : Str) : ∀ p, readOrigin d k ≠ .copyOf p := by
+theorem readOriginRc_ne_copy (d : Db) (rc : Option Rec) (k : Str) : ∀ p, readOriginRc d rc k ≠ .copyOf p := by
   intro p
-  unfold readOrigin
-  simp only
+  unfold readOriginRc originOf
   split <;> simp
 
-theorem readOrigin_congr {d d' : Db} {k : Str} (h2 : lookup d'.parents k = lookup d.parents k)
-    (h3 : lookup d'.indices k = lookup d.indices k) : readOrigin d' k = readOrigin d k := by
-  unfold readOrigin
+/-- What a read constructs depends on the database only through the parent and the record number looked up for the key. -/
+theorem readOriginRc_congr {d d' : Db} {k k' : Str} (rc : Option Rec) (h2 : lookup d'.parents k' = lookup d.parents k)
+    (h3 : lookup d'.indices k' = lookup d.indices k) : readOriginRc d' rc k' = readOriginRc d rc k := by
+  unfold readOriginRc
   rw [h2, h3]
 
 /-! ### more on association lists -/
@@ -164,18 +164,23 @@ theorem lookup_mvKey_ne {β : Type} (l : List (Str × β)) {old newkey k : Str} 
 next read constructs the series from `rc`. -/
 def KeyOK (os : Origins) (d : Db) (k : Str) (rc : Rec) : Prop :=
   (∀ o, lookup d.register k = some (some o) → root os o = some rc.origin) ∧
-  ((∀ o, lookup d.register k ≠ some (some o)) → readOrigin d k = rc.origin)
+  ((∀ o, lookup d.register k ≠ some (some o)) → readOriginRc d (some rc) k = rc.origin)
 
 /-- Every key of `d` is bound to the record the dictionary `r` holds for it. -/
 def Bound (os : Origins) (d : Db) (r : List (Str × Rec)) : Prop :=
   ∀ k ∈ d.keys, ∃ rc, lookup r k = some rc ∧ KeyOK os d k rc
 
+theorem keyOK_congr' {os : Origins} {d d' : Db} {k k' : Str} {rc : Rec}
+    (h1 : lookup d'.register k' = lookup d.register k) (h2 : lookup d'.parents k' = lookup d.parents k)
+    (h3 : lookup d'.indices k' = lookup d.indices k) (h : KeyOK os d k rc) : KeyOK os d' k' rc := by
+  unfold KeyOK
+  rw [h1, readOriginRc_congr _ h2 h3]
+  exact h
+
 theorem keyOK_congr {os : Origins} {d d' : Db} {k : Str} {rc : Rec}
     (h1 : lookup d'.register k = lookup d.register k) (h2 : lookup d'.parents k = lookup d.parents k)
-    (h3 : lookup d'.indices k = lookup d.indices k) (h : KeyOK os d k rc) : KeyOK os d' k rc := by
-  unfold KeyOK
-  rw [h1, readOrigin_congr h2 h3]
-  exact h
+    (h3 : lookup d'.indices k = lookup d.indices k) (h : KeyOK os d k rc) : KeyOK os d' k rc :=
+  keyOK_congr' h1 h2 h3 h
 
 theorem keyOK_append {os : Origins} (ext : Origins) {d : Db} {k : Str} {rc : Rec} (h : KeyOK os d k rc) :
     KeyOK (os ++ ext) d k rc :=
@@ -206,27 +211,28 @@ theorem OFresh.snoc {os : Origins} {n : Nat} (h : OFresh os n) (v : Origin) : OF
 /-! ### reading -/
 
 /-- The table after one iteration of `readKeys`. -/
-def bindOne (d : Db) (n : Nat) (k : Str) (os : Origins) : Origins :=
+def bindOne (r : List (Str × Rec)) (d : Db) (n : Nat) (k : Str) (os : Origins) : Origins :=
   match lookup d.register k with
   | some (some _) => os
-  | _ => os ++ [(n, readOrigin d k)]
+  | _ => os ++ [(n, readOrigin d r k)]
 
-theorem readBind_nil (store : Bool) (d : Db) (n : Nat) (os : Origins) : readBind store d n [] os = os := by
+theorem readBind_nil (store : Bool) (r : List (Str × Rec)) (d : Db) (n : Nat) (os : Origins) :
+    readBind store r d n [] os = os := by
   unfold readBind; rfl
 
-theorem readBind_cons (store : Bool) (d : Db) (n : Nat) (k : Str) (ks : List Str) (os : Origins) :
-    readBind store d n (k :: ks) os =
-      readBind store (readOne store d n k).1 (readOne store d n k).2.1 ks (bindOne d n k os) := by
+theorem readBind_cons (store : Bool) (r : List (Str × Rec)) (d : Db) (n : Nat) (k : Str) (ks : List Str) (os : Origins) :
+    readBind store r d n (k :: ks) os =
+      readBind store r (readOne store d n k).1 (readOne store d n k).2.1 ks (bindOne r d n k os) := by
   rw [readBind]
   unfold readOne bindOne
   rcases h : lookup d.register k with _ | _ | o <;> simp
 
-theorem bindOne_of_cached {d : Db} {n : Nat} {k : Str} {o : Nat} (os : Origins)
-    (h : lookup d.register k = some (some o)) : bindOne d n k os = os := by
+theorem bindOne_of_cached {r : List (Str × Rec)} {d : Db} {n : Nat} {k : Str} {o : Nat} (os : Origins)
+    (h : lookup d.register k = some (some o)) : bindOne r d n k os = os := by
   simp [bindOne, h]
 
-theorem bindOne_of_not_cached {d : Db} {n : Nat} {k : Str} (os : Origins)
-    (h : ∀ o, lookup d.register k ≠ some (some o)) : bindOne d n k os = os ++ [(n, readOrigin d k)] := by
+theorem bindOne_of_not_cached {r : List (Str × Rec)} {d : Db} {n : Nat} {k : Str} (os : Origins)
+    (h : ∀ o, lookup d.register k ≠ some (some o)) : bindOne r d n k os = os ++ [(n, readOrigin d r k)] := by
   unfold bindOne
   split
   · rename_i o ho; exact absurd ho (h o)
@@ -235,17 +241,21 @@ theorem bindOne_of_not_cached {d : Db} {n : Nat} {k : Str} (os : Origins)
 /-- One iteration of `readKeys` keeps the binding and returns an object bound to the record of the key. -/
 theorem readOne_bound (store : Bool) (d : Db) (n : Nat) (k : Str) (os : Origins) (r : List (Str × Rec))
     (hk : k ∈ d.keys) (hf : OFresh os n) (hb : Bound os d r) :
-    (∃ e, bindOne d n k os = os ++ e) ∧ OFresh (bindOne d n k os) (readOne store d n k).2.1 ∧
-      Bound (bindOne d n k os) (readOne store d n k).1 r ∧
-      (∃ rc, lookup r k = some rc ∧ root (bindOne d n k os) (readOne store d n k).2.2 = some rc.origin) := by
+    (∃ e, bindOne r d n k os = os ++ e) ∧ OFresh (bindOne r d n k os) (readOne store d n k).2.1 ∧
+      Bound (bindOne r d n k os) (readOne store d n k).1 r ∧
+      (∃ rc, lookup r k = some rc ∧ root (bindOne r d n k os) (readOne store d n k).2.2 = some rc.origin) := by
   obtain ⟨rc, hrc, hok⟩ := hb k hk
   rcases readOne_cases store d n k with ⟨o, ho, h⟩ | ⟨hn, h⟩
   · rw [h, bindOne_of_cached os ho]
     exact ⟨⟨[], by simp⟩, hf, hb, rc, hrc, hok.1 o ho⟩
   · rw [h, bindOne_of_not_cached os hn]
     have hfr : olookup os n = none := olookup_none_of_fresh hf (le_refl _)
-    have hroot : root (os ++ [(n, readOrigin d k)]) n = some rc.origin := by
-      rw [root_new hfr (readOrigin_ne_copy d k), hok.2 hn]
+    have hro : readOrigin d r k = rc.origin := by
+      unfold readOrigin
+      rw [hrc]; exact hok.2 hn
+    have hroot : root (os ++ [(n, readOrigin d r k)]) n = some rc.origin := by
+      have := root_new (v := readOrigin d r k) hfr (fun p => readOriginRc_ne_copy d (lookup r k) k p)
+      rw [this, hro]
     refine ⟨⟨_, rfl⟩, hf.snoc _, ?_, rc, hrc, hroot⟩
     cases store
     · exact bound_append _ hb
@@ -277,7 +287,7 @@ structure ReadPost (os os' : Origins) (d' : Db) (r : List (Str × Rec)) (n' : Na
 
 theorem readKeys_bound (store : Bool) (ks : List Str) (d : Db) (n : Nat) (os : Origins) (r : List (Str × Rec))
     (hks : ∀ k ∈ ks, k ∈ d.keys) (hf : OFresh os n) (hb : Bound os d r) :
-    ReadPost os (readBind store d n ks os) (readKeys d n ks store).1 r (readKeys d n ks store).2.1
+    ReadPost os (readBind store r d n ks os) (readKeys d n ks store).1 r (readKeys d n ks store).2.1
       (readKeys d n ks store).2.2 := by
   induction ks generalizing d n os with
   | nil =>
@@ -290,7 +300,7 @@ theorem readKeys_bound (store : Bool) (ks : List Str) (d : Db) (n : Nat) (os : O
       intro k' hk'
       rw [readOne_keys]
       exact hks k' (List.mem_cons_of_mem _ hk')
-    have post := ih (readOne store d n k).1 (readOne store d n k).2.1 (bindOne d n k os) hkeys hf1 hb1
+    have post := ih (readOne store d n k).1 (readOne store d n k).2.1 (bindOne r d n k os) hkeys hf1 hb1
     obtain ⟨e2, he2⟩ := post.ext
     refine ⟨⟨e1 ++ e2, ?_⟩, post.fresh, post.bound, ?_⟩
     · rw [he2, he1, List.append_assoc]
